@@ -120,7 +120,7 @@ def main(tier, seed):
     res = core.Result(PID, tier, seed)
     core.prove(res, PID)
     rng = random.Random(seed * 127 + 5)
-    ncls, per = (120, 8) if tier == "quick" else (2500, 12)
+    ncls, per = (120, 8) if tier == "quick" else (900, 10)
     cases, srcs = gen_cases(rng, ncls, per)
     r = dcsuite.run_suite(res, cases, "fields",
                           rule="random Schema / DataClass declarations over every Field parameter (default, default_factory, "
